@@ -241,6 +241,18 @@ func checkC18(c *Ctx) {
 	pairs := c.genPairs(c.Pick(120, 1200), 30)
 	seed, _ := ValidateSeedPairs()
 	pairs = append(pairs, seed...)
+	// documents with hundreds of errors from several rules at once (a cap or a de-duplication across
+	// rules would break the union law only there)
+	for _, n := range []int{40, 60, 101, 150, 400} {
+		var sb strings.Builder
+		sb.WriteString("query Q($u1: Int, $u2: Zz) {\n")
+		for i := 0; i < n; i++ {
+			sb.WriteString("  zz" + strconv.Itoa(i) + " @qq" + strconv.Itoa(i) + "(a: $nope" + strconv.Itoa(i) + ")\n")
+		}
+		sb.WriteString("}\n")
+		pairs = append(pairs, [2]string{"type Query { a: Int b(x: Int!): Int }", sb.String()})
+		pairs = append(pairs, [2]string{gen.GenSchema(c.R, 5).SDL(), sb.String()})
+	}
 	c.valPropsSweep(pairs, isC18Sig)
 	c.Ev.Rule = "per pair, on the real validator: default rule set = explicit list of the 27 specified rules; each rule alone reports exactly its share of the full run (multiset of rule/message/locations), every error tagged with its rule; the four …WithoutSuggestions variants report the same errors with the ' Did you mean' suffix removed; plus validator vs Lean model on random rule subsets and orders."
 }
